@@ -277,3 +277,146 @@ func unitC11orch(e common.Env, p *common.Part) {
 		}
 	}
 }
+
+// ---- Sign through the orchestrator with stored share data of every kind (the "local precondition" clause) ----
+
+func unitC11sign(e common.Env, p *common.Part) {
+	p.Rule = "Sign through real LoudScheme / SilentScheme objects with the real BLS and PS signers, 3 signers, under a deadline of 150..250 ms, with stored share data of every kind: none, garbage, a truncated valid encoding, well-formed data of a key generation among fewer parties than there are signers, data of the other scheme, data of another key generation, valid data; oracle: every Sign returns (an error or a signature) within 5 s after its deadline, and so does a second Sign and a KeyGen issued on the same scheme objects afterwards (a call that leaves a lock held shows there); distinct key = (scheme, mode, data kind); non-trivial when the data is not the valid one"
+	kinds := []string{"none", "garbage", "truncated", "fewer-parties", "other-scheme", "another-keygen", "valid", "fewer-parties-at-one-node"}
+	idx := 0
+	for _, sch := range []scheme{{Name: "bls"}, {Name: "ps", MsgLen: 1}} {
+		for _, silent := range []bool{false, true} {
+			for _, kind := range kinds {
+				idx++
+				if !e.Mine(idx) || p.ViolationCount() >= 3 {
+					continue
+				}
+				mode := map[bool]string{false: "loud", true: "silent"}[silent]
+				key := fmt.Sprintf("%s %s stored data: %s", sch.Name, mode, kind)
+				p.Begin(key)
+				rng := e.Rng("c11sign", idx)
+				ids := []uint16{1, 2, 3}
+				deal := func(s scheme, n, t int) map[uint16][]byte {
+					if s.Name == "bls" {
+						st, _ := dealBLS(n, t)
+						return st
+					}
+					st, _, err := dealPS(n, t, 1)
+					if err != nil {
+						return map[uint16][]byte{}
+					}
+					return st
+				}
+				valid := deal(sch, 3, 3)
+				data := map[uint16][]byte{}
+				for _, u := range ids {
+					switch kind {
+					case "none":
+					case "garbage":
+						data[u] = []byte("this is not share data at all")
+					case "truncated":
+						data[u] = valid[u][:len(valid[u])/2]
+					case "fewer-parties":
+						data[u] = deal(sch, 2, 2)[uint16(1+int(u)%2)]
+					case "fewer-parties-at-one-node":
+						data[u] = valid[u]
+						if u == 2 {
+							data[u] = deal(sch, 2, 2)[2]
+						}
+					case "other-scheme":
+						other := scheme{Name: "ps", MsgLen: 1}
+						if sch.Name == "ps" {
+							other = scheme{Name: "bls"}
+						}
+						data[u] = deal(other, 3, 3)[u]
+					case "another-keygen":
+						data[u] = valid[u]
+						if u == 3 {
+							data[u] = deal(sch, 3, 3)[3]
+						}
+					default:
+						data[u] = valid[u]
+					}
+				}
+				s := sch
+				cl := cluster.New(cluster.Config{Map: map[uint16]uint16{1: 1, 2: 2, 3: 3}, Silent: silent, Threshold: 2,
+					KGF: func(node uint16) tss.KeyGenerator { return s.newKG(node) },
+					SF:  func(node uint16) tss.Signer { return s.newSigner(node) }})
+				go cl.Net.RunRandom(rng, simnet.Uniform)
+				for _, u := range ids {
+					if data[u] != nil {
+						cl.Schemes[u].SetStoredData(data[u])
+					}
+				}
+				call := func(what string, f func(ctx context.Context, u uint16) error) (hung bool, errs map[uint16]error) {
+					ctx, cancel := context.WithTimeout(context.Background(), time.Duration(150+rng.Intn(100))*time.Millisecond)
+					defer cancel()
+					errs = map[uint16]error{}
+					var mu sync.Mutex
+					var wg sync.WaitGroup
+					for _, u := range ids {
+						u := u
+						wg.Add(1)
+						go func() {
+							defer wg.Done()
+							err := f(ctx, u)
+							mu.Lock()
+							errs[u] = err
+							mu.Unlock()
+						}()
+					}
+					done := make(chan struct{})
+					go func() { wg.Wait(); close(done) }()
+					select {
+					case <-done:
+					case <-time.After(6 * time.Second):
+						return true, nil
+					}
+					return false, errs
+				}
+				digest := []byte("digest-0123456789abcdef0123456789")
+				steps := []struct {
+					what string
+					f    func(ctx context.Context, u uint16) error
+				}{
+					{"Sign", func(ctx context.Context, u uint16) error {
+						_, err := cl.Schemes[u].Sign(ctx, digest, "topic-a")
+						return err
+					}},
+					{"a second Sign (other topic)", func(ctx context.Context, u uint16) error {
+						_, err := cl.Schemes[u].Sign(ctx, digest, "topic-b")
+						return err
+					}},
+					{"a KeyGen afterwards", func(ctx context.Context, u uint16) error { _, err := cl.Schemes[u].KeyGen(ctx, 3, 2); return err }},
+				}
+				if silent {
+					cl.SetPick("topic-a", ids)
+					cl.SetPick("topic-b", ids)
+					cl.SetPick(tss.DkgTopicName, ids)
+				}
+				for _, st := range steps {
+					hung, errs := call(st.what, st.f)
+					p.Count("calls", 3)
+					if hung {
+						p.Violate("hang/orchestrated-sign-"+sch.Name+"/"+kind, key+": "+st.what+" had not returned 5 s after its deadline", nil)
+						break
+					}
+					for _, err := range errs {
+						if err != nil {
+							p.Count("error_returns", 1)
+						} else {
+							p.Count("success_returns", 1)
+						}
+					}
+				}
+				time.Sleep(20 * time.Millisecond)
+				cl.Net.Stop()
+				p.Case(key, kind != "valid")
+				if kind != "valid" {
+					p.Count("faults_effective", 1)
+				}
+				p.Sample(map[string]interface{}{"case": key})
+			}
+		}
+	}
+}
